@@ -1035,6 +1035,14 @@ class Interp:
         return abs(args[0])
       if vec(args[0]) is not None:
         return Arr(abs(x) for x in vec(args[0]))
+    if short == 'flatnonzero' and len(args) == 1 and \
+            isinstance(args[0], Arr):
+      return Arr(i for i, x in enumerate(args[0].xs) if x)
+    if short == 'nonzero' and len(args) == 1 and isinstance(args[0], Arr):
+      return (Arr(i for i, x in enumerate(args[0].xs) if x),)
+    if short == 'count_nonzero' and len(args) == 1 and \
+            isinstance(args[0], Arr):
+      return sum(1 for x in args[0].xs if x)
     if short == 'array_equal' and len(args) == 2 and \
             vec(args[0]) is not None and vec(args[1]) is not None:
       return list(vec(args[0])) == list(vec(args[1]))
